@@ -73,9 +73,16 @@ def analyse_from_str(F, f, rep, R, module):
                     "an Err exit of the parser that is neither 'no regex match' nor 'numeric parse failure of a capture group' (calls in its slice: %s)" % cs, site)
         # direct Err construction
         for bi, si, s in g.stmts():
-            if s[0] == "=" and s[1][0] == 0 and s[2][0] == "agg" and s[2][1].get("variant") == "Err" and g.d.get("ret", "").startswith("std::result::Result<") and g.kind != "closure":
-                rep.bad(R + ".3", "extra-rejection:direct-Err:%s" % g.path.rsplit("::", 1)[-1],
-                        "the parser constructs Err directly (an accept/reject decision outside the regex)", "%s bb%d" % (g.where(), bi))
+            if s[0] == "=" and s[2][0] == "agg" and s[2][1].get("variant") == "Err" and s[2][1].get("adt", "").endswith("result::Result") and g.d.get("ret", "").startswith("std::result::Result<"):
+                # allowed only as the Err arm of a numeric parse result (`match text.parse() { Err(_) => Err(..) }`)
+                from_parse = False
+                for d, pol, dd in mir.guards_of(g, bi):
+                    if d[0] == "discr" and "ParseIntError" in str(d[2]) and isinstance(pol, tuple) and (("Err" in pol[1]) if pol[0] == "in" else ("Ok" in pol[1])): from_parse = True
+                if from_parse:
+                    rep.ok(R + ".3", "Err built on the failure arm of a numeric parse", nontrivial_key="derr%s%d" % (g.path, bi))
+                else:
+                    rep.bad(R + ".3", "extra-rejection:direct-Err:%s" % g.path.rsplit("::", 1)[-1],
+                            "the parser constructs Err under a condition that is neither 'no regex match' nor a numeric parse failure (guards: %s): an accept/reject decision outside the regex" % [str(x[0][:2])[:50] for x in mir.guards_of(g, bi)], "%s bb%d" % (g.where(), bi))
     rep.floor(R + ".3", "no-match rejection site", n_nomatch, 1)
     # ---- which groups does the code read -------------------------------------------------
     for g in fns:
@@ -94,7 +101,8 @@ PLUMBING = ("Option::<T>::map", "Option::<std::result::Result<T, E>>::transpose"
             "Option::<T>::ok_or", "Result::<T, E>::map_err", "regex::Match::<'h>::as_str", "core::str::<impl str>::split",
             "Iterator::map", "Iterator::collect", "Option::<T>::unwrap", "Option::<T>::expect", "ops::Deref>::deref",
             "regex::Regex::captures", NAME, PARSE, "IntoIterator>::into_iter", "ops::function::Fn", "FnMut", "FnOnce", "Result::<T, E>::map",
-            "Option::<T>::is_some", "Option::<T>::as_ref")
+            "Option::<T>::is_some", "Option::<T>::as_ref", "std::fmt::format", "std::hint::must_use", "std::fmt::Arguments::<'a>::new",
+            "core::fmt::rt::Argument::<'_>::new_", "ToString>::to_string", "std::fmt::Arguments::<'a>::from_str")
 NO_DESCEND = ("map_err", "ok_or_else", "ok_or", "unwrap_or_else")
 
 def back_slice(F, fn, op, depth=0, seen=None):
@@ -375,10 +383,34 @@ def numeric_classification(F, rep, rule, module, enums, floor):
             for a in t[2]:
                 if a[0] == "c" and a[1].get("k") == "fn" and a[1]["path"].rsplit("::", 1)[-1] in ("UInt", "new_uint") and any(e in a[1]["path"] for e in enums):
                     sites.append((g, bi, [e for e in enums if e in a[1]["path"]][0]))
-    for g, bi, ename in sites:
+    for g0, bi0, ename in sites:
         n += 1
-        site = "%s bb%d line %s" % (g.where(), bi, g.blocks[bi]["line"])
-        key = "%s:%s#%d" % (g.path.replace("crate::", ""), ename, n)
+        site = "%s bb%d line %s" % (g0.where(), bi0, g0.blocks[bi0]["line"])
+        key = "%s:%s#%d" % (g0.path.replace("crate::", ""), ename, n)
+        # a construction inside a nested closure (e.g. `.map(|n| UInt(n.into()))`) is governed by the conditions
+        # under which that closure is created in its parent
+        g, bi = g0, bi0
+        for _ in range(3):
+            here = [p for p in mir.enum_paths(g, limit=5000, stop_blocks=[bi]) if p[-1] == bi]
+            if any(any(m == "all" for m, c, tr, pr in f_) for p in here for f_ in path_facts(F, g, p)): break
+            par = F.fn(g.parent) if g.kind == "closure" and g.parent else None
+            if par is None: break
+            made = [b2 for b2, s2, st in par.stmts() if st[0] == "=" and st[2][0] == "agg" and st[2][1].get("k") == "closure" and st[2][1]["path"] == g.path]
+            if not made: break
+            g, bi = par, made[0]
+        # the integer type parsed must be the variant's payload type (a narrower parse turns large numbers into text)
+        adt = [a for pth, a in F.adts.items() if pth.rsplit("::", 1)[-1] == ename]
+        payload = None
+        if adt:
+            for v in adt[0]["variants"]:
+                if v["name"] == "UInt" and v["fields"]: payload = v["fields"][0]["ty"]
+        scope = [g0] + ([F.fn(g0.parent)] if g0.kind == "closure" and g0.parent and F.fn(g0.parent) is not None else []) + F.children(g0.path)
+        ptys = {(t2[1].get("targs") or ["?"])[0] for h in scope for b2, t2 in h.calls() if mir.call_matches(t2, (PARSE,))}
+        ptys = {x for x in ptys if x in INT_TYPES}
+        if payload in INT_TYPES and ptys and ptys != {payload}:
+            rep.bad(rule, "narrowing-parse:" + key.rsplit("#", 1)[0], "numeric text is parsed as %s but stored in a %s field: values beyond the narrower type change classification (number vs text) or are lost" % (sorted(ptys), payload), site)
+        elif payload in INT_TYPES and ptys:
+            rep.ok(rule, "numeric text parsed as %s = payload type of %s::UInt" % (payload, ename), nontrivial_key=key + "ty")
         try:
             paths = [p for p in mir.enum_paths(g, limit=5000, stop_blocks=[bi]) if p[-1] == bi]
         except mir.TooManyPaths:
